@@ -61,13 +61,20 @@ def fracs(s):
     return [frac(t) for t in s.split()]
 
 
+class NonFinite(ValueError):
+    """the implementation handed back NaN / inf where the harness needs an exact finite number"""
+
+
 def F(v):
     """exact Fraction of a float/int"""
     if isinstance(v, Fraction):
         return v
     if isinstance(v, (int, np.integer)):
         return Fraction(int(v))
-    return Fraction(float(v))
+    fv = float(v)
+    if fv != fv or fv in (float("inf"), float("-inf")):
+        raise NonFinite(f"non-finite value {fv!r}")
+    return Fraction(fv)
 
 
 def close(x, q, rel=1e-9, ab=1e-12):
@@ -79,6 +86,8 @@ def close(x, q, rel=1e-9, ab=1e-12):
 def numerator_of(p, denom, tol=1e-9):
     """recover the integer numerator of a returned p-value p = k/denom (F3)"""
     k = float(p) * denom
+    if k != k or k in (float("inf"), float("-inf")):
+        return None
     r = round(k)
     if abs(k - r) > tol * max(1.0, abs(k)):
         return None
@@ -234,6 +243,7 @@ class Ctx:
     def case(self, key, nontrivial=True, sample=None):
         """register one evaluated case; `key` identifies it for the distinct count"""
         self.evaluations += 1
+        self.last_detail = sample if sample is not None else str(key)[:600]
         if nontrivial:
             self.nontrivial.add(hashlib.sha1(repr(key).encode()).hexdigest()[:16])
         if sample is not None and len(self.samples) < 6:
